@@ -172,6 +172,16 @@ def _bf_call(start, edges, n, target):
     return ("Path", list(r.solution), canon_num(r.objective), st)
 
 
+def _dijkstra_call(start, target, edges):
+    from solvor.dijkstra import dijkstra
+
+    adj = {}
+    for u, v, w in edges:
+        adj.setdefault(u, []).append((v, w))
+    r = dijkstra(start, target, lambda x: adj.get(x, []))
+    return (status_name(r), canon_num(r.objective))
+
+
 def run_bf(start, edges, n, target):
     res = guarded(_bf_call, start, [tuple(e) for e in edges], n, target, timeout=5)
     if res[0] == "ok":
@@ -633,6 +643,7 @@ def judge_graph(n, edges, directed_too=True):
         if bad:
             problems.append((f"floyd_warshall(directed=False): {bad}", {"kind": "fw", "n": n, "edges": edges, "directed": False, "impl": fwu}))
         recs["fw"].append((n, edges, False, fwu))
+    nonneg = all(w >= 0 for (_, _, w) in edges)
     for s in range(n):
         outs = {}
         for t in [None] + list(range(n)):
@@ -642,6 +653,16 @@ def judge_graph(n, edges, directed_too=True):
             if bad:
                 problems.append((f"bellman_ford(start={s}, target={t}): {bad}", {"kind": "bf", "n": n, "edges": edges, "start": s, "target": t, "impl": o}))
         recs["bf"].append((s, edges, n, outs))
+        # agreement with dijkstra (part B's solver) on non-negative graphs: same distance / same INFEASIBLE
+        if nonneg:
+            for t in range(n):
+                dj = guarded(_dijkstra_call, s, t, edges, timeout=5)
+                o = outs[t]
+                same = dj[0] == "ok" and ((dj[1][0] == "INFEASIBLE" and o[0] == "Infeasible") or
+                                          (dj[1][0] == "OPTIMAL" and o[0] == "Path" and dj[1][1] == o[2]))
+                if not same:
+                    problems.append((f"dijkstra {dj} and bellman_ford {o} disagree for {s}->{t}",
+                                     {"kind": "bf", "n": n, "edges": edges, "start": s, "target": t, "impl": o}))
         # agreement between the two solvers on the shared input
         if fw[0] == "Dist" and outs[None][0] == "Dists" and outs[None][1] != fw[1][s]:
             problems.append((f"bellman_ford and floyd_warshall disagree from source {s}: {outs[None][1]} vs {fw[1][s]}",
@@ -750,8 +771,8 @@ def run(ctx: Ctx):
                 "distinct = canonical JSON of the input")
     ctx.proof_step(["C11"])
     big = ctx.tier == "thorough"
-    n_graph = ctx.budget(150, 2500)
-    n_search = ctx.budget(400, 6000)
+    n_graph = ctx.budget(110, 2000)
+    n_search = ctx.budget(350, 5000)
 
     # ---- cases
     graphs = []
@@ -767,6 +788,11 @@ def run(ctx: Ctx):
     for _ in range(n_search):
         _, adj, s, g, mi = gen_search(ctx.rng, big)
         searches.append((adj, s, g, mi))
+
+    for f in ctx.open_findings():
+        for wit in f.get("witnesses", []):
+            if isinstance(wit, dict) and wit.get("kind") in ("bf", "fw", "search") and replay(dict(wit)) == 1:
+                ctx.known_hit(f["id"], f"witness still reproduces: {json.dumps(wit)[:200]}")
 
     bad_malformed = malformed_stream(ctx)
     for kind, args, out in bad_malformed:
